@@ -15,6 +15,19 @@ use crate::scenario::*;
 
 pub fn depth_behaviour(g: &mut Gen, deepest: usize, prefix_len: usize) -> Depth {
     let hi = deepest + 2;
+    // bounds near the machine word: the translation to the walk root must not overflow or wrap
+    if g.rng.chance(4, 100) {
+        let big = *g.rng.pick(&[usize::MAX, usize::MAX - 1, usize::MAX / 2, u32::MAX as usize]);
+        let small = g.rng.range(0, hi);
+        return match g.rng.below(6) {
+            0 => Depth::Max(big),
+            1 => Depth::Min(big),
+            2 => Depth::MinMax(small, big),
+            3 => Depth::MinMax(big, small),
+            4 => Depth::MinMax(big, big),
+            _ => Depth::Bounded(Some(small.max(1)), Some(big)),
+        };
+    }
     match g.rng.below(12) {
         0 | 1 => Depth::Max(g.rng.range(0, hi)),
         // maxima below the prefix length
@@ -326,6 +339,10 @@ pub fn check(sc: &Scenario, env: &mut Env) -> Result<Outcome, HarnessError> {
             if p > q {
                 out.probe("depth:minmax-unordered-arguments");
             }
+        }
+        let (lo, hi_) = w.depth.window();
+        if lo > (u32::MAX as usize) / 2 || hi_.map_or(false, |h| h > (u32::MAX as usize) / 2) {
+            out.probe("depth:bounds-near-the-machine-word");
         }
         let walk_root_depth = visits.iter().filter(|v| glob.as_ref().map_or(true, |g| g.is_match(space.rel(&v.path).as_str()))).map(|v| depth_of_rel(&v.path)).min();
         if let (Some(mx), Some(wd)) = (max, walk_root_depth) {
